@@ -122,6 +122,50 @@ def conformance(fixed, dry, results):
     return compared, div
 
 
+SCENARIO_SOURCES = [
+    (("spawn_", "child_"), ["tiny-std/src/process.rs"]),
+    (("unix_", "tcp_"), ["tiny-std/src/net.rs", "tiny-std/src/sock.rs"]),
+    (("epoll",), ["tiny-std/src/linux/epoll.rs"]),
+    (("getpwuid",), ["tiny-std/src/unix/passwd/getpw_r.rs"]),
+    (("openpty",), ["tiny-std/src/unix/misc/openpty.rs"]),
+    (("io_uring",), ["rusl/src/io_uring.rs", "rusl/src/platform/compat/io_uring.rs"]),
+    (("random",), ["tiny-std/src/unix/random.rs", "tiny-std/src/fs.rs"]),
+    (("",), ["tiny-std/src/fs.rs", "tiny-std/src/io.rs"]),
+]
+_special_cache = {}
+
+
+def errno_nr(name):
+    import errno as pyerrno
+    return ERRNO.get(name) or getattr(pyerrno, name)
+
+
+def special_errnos(scenario):
+    """the errnos that the source files implementing the scenario's operation mention (read from
+    the tree under test on every run, test modules excluded)"""
+    import errno as pyerrno
+    import re
+    for prefixes, files in SCENARIO_SOURCES:
+        if any(scenario.startswith(p) for p in prefixes):
+            break
+    key = tuple(files)
+    if key not in _special_cache:
+        names = []
+        for f in files:
+            try:
+                text = open(os.path.join(core.REPO, f)).read()
+            except OSError:
+                continue
+            cut = text.find("#[cfg(test)]\nmod ")
+            if cut > 0 and "\nmod test;" not in text[cut:cut + 40]:
+                text = text[:cut]
+            for n in re.findall(r"Errno::(E[A-Z0-9]+)", text):
+                if n not in names and (n in ERRNO or hasattr(pyerrno, n)):
+                    names.append(n)
+        _special_cache[key] = names
+    return _special_cache[key]
+
+
 def scenarios(bindir):
     p = core.run_cmd([os.path.join(bindir, "fdops"), "list"])
     return [l.strip() for l in p.stdout.splitlines() if l.strip()]
@@ -236,16 +280,24 @@ def run(tier):
                 continue
             dry[s] = (r, evs, calls)
             plan.append({"scenario": s, "k": None, "errno": None})
+            special = special_errnos(s)
             for c in calls:
-                if c["phase"] == "drop" and tier == "quick":
-                    continue   # failures while the caller drops the result: thorough tier only
                 names = [TYPICAL.get(c["name"], "EINVAL")]
-                if tier != "quick" and c["phase"] == "op":
-                    names += [n for n in COMMON if n not in names]
-                    if c["name"] in ("connect", "accept4", "read", "write"):
-                        names += [n for n in BRANCHY if n not in names]
+                if c["phase"] == "op":
+                    # the errnos the operation's own source special-cases (errno-specific arms such as
+                    # EAGAIN => Ok(None), EINPROGRESS, EINTR => retry) fail every call of the operation
+                    names += [n for n in special if n not in names]
+                    if tier != "quick":
+                        names += [n for n in COMMON + BRANCHY if n not in names]
+                else:
+                    # while the caller drops the result: close failing must not close twice, an unmap
+                    # failing must not skip the close
+                    if c["name"] == "close":
+                        names += ["EINTR"]
+                    if tier != "quick":
+                        names += [n for n in COMMON if n not in names]
                 for n in names:
-                    plan.append({"scenario": s, "k": c["k"], "errno": ERRNO[n], "errname": n, "call": c["name"], "phase": c["phase"]})
+                    plan.append({"scenario": s, "k": c["k"], "errno": errno_nr(n), "errname": n, "call": c["name"], "phase": c["phase"]})
     if len(dry) < 40:
         raise core.ToolError("only %d of %d scenarios complete without faults: %s" % (len(dry), len(scens), json.dumps(skipped[:5])))
     scens = [s for s in scens if s in dry]
@@ -314,7 +366,8 @@ def run(tier):
             nontrivial.add((it["scenario"], it["k"], it["errno"]))
         fname, nth = (None, 0) if it["k"] is None else nth_of(dry[it["scenario"]][2], it["k"])
         for kind in bad:
-            sig = {"scenario": it["scenario"], "kind": kind, "fail_call": fname or "none", "fail_nth": nth}
+            sig = {"scenario": it["scenario"], "kind": kind, "fail_call": fname or "none", "fail_nth": nth,
+                   "phase": it.get("phase") or "none"}
             ret = [e for e in evs if e["ev"] == "return"][0]
             chk.violate(sig, "%s: %s with %s -> result %s, table %s -> %s at return -> %s after drop (handed %s)" % (
                 it["scenario"], kind,
@@ -348,7 +401,7 @@ def run(tier):
                 "io_uring set-up, incl. invalid arguments) x every system call k the operation issues before it returns x %s; one traced "
                 "process per (scenario, k, errno); every window is replayed by TLC through FdTable.tla (FdTableTrace) and, independently, "
                 "judged on the /proc/<pid>/fd snapshots. non-trivial = distinct (scenario, k, errno) whose fault was actually delivered"
-                % (len(scens), "1 typical errno" if tier == "quick" else "5 errnos (EMFILE, ENOMEM, EINTR, EACCES, typical; EAGAIN and EINPROGRESS too for connect/accept4/read/write)"))
+                % (len(scens), "the call's typical errno and every errno the operation's source special-cases (Errno::E.. in its files), also for the calls issued while the caller drops the result" if tier == "quick" else "typical + special-cased errnos + EMFILE, ENOMEM, EINTR, EACCES, EAGAIN, EINPROGRESS, also in the drop phase"))
     chk.assumptions = [
         "faults are injected at the system-call boundary of the main task only (parent side; the forked child of spawn belongs to C13)",
         "a failing close still releases the descriptor (Linux semantics): close is executed and only its result is overwritten",
